@@ -277,10 +277,20 @@ def hkcmp (a b : String) : String :=
   | some x, some y => if x < y then "-1" else if y < x then "1" else "0"
   | _, _ => "bad-op"
 
+/-- The size bound of a `new` line.  `WithMaxSize(n)` / `WithMaxQueueSize(n)` with `n ≤ 0` is "no bound" (`Add` tests
+`t.maxSize > 0`): a negative option value is the model's `maxSize = 0`. -/
+def parseMax (m : String) : Option Nat :=
+  match m.toNat? with
+  | some n => some n
+  | none =>
+    match m.toList with
+    | '-' :: rest => if !rest.isEmpty && rest.all Char.isDigit then some 0 else none
+    | _ => none
+
 def stepLine (d : DSt) (toks : List String) : DSt × String :=
   match toks with
   | ["new", w, m] =>
-    match w.toNat?, m.toNat? with
+    match w.toNat?, parseMax m with
     | some w, some m =>
       let ts : List Th := [.ticker, .ctl .ready []] ++ List.replicate w .idle
       let d0 : DSt := { cfg := initCfg m ts, workers := w, started := true }
@@ -293,6 +303,7 @@ def stepLine (d : DSt) (toks : List String) : DSt × String :=
   | ["nop"] => (d, "done")
   | "stress" :: _ => (d, "done")
   | "burst" :: _ => (d, "done")
+  | "cbshutdown" :: _ => (d, "done")
   | "addrace" :: _ => (d, "done")
   | "addburst" :: _ => (d, "done")
   | "sdrace" :: _ => (d, "done")
